@@ -30,7 +30,7 @@ func (*c09) CoqImport() string {
 func (*c09) Rule() string {
 	return "a sequential prefix (nothing / install / install+upgrade) then 2 or 3 concurrent real install/upgrade operations on the same release " +
 		"(flags atomic/cleanup-on-fail/no-hooks/take-ownership/dry-run variants, sometimes --replace; options outside the model on every operation: --force, --recreate-pods, upgrade --install, value-reuse modes, " +
-		"skip-schema, no-validate, dns, sub-notes, skip-crds, label, description; 1-3 resource charts, 0-1 hooks) on memory/Secret/ConfigMap storage, " +
+		"skip-schema, no-validate, dns, sub-notes, skip-crds, label, description; a crds/ directory on 1 chart in 5, --create-namespace on 1 install in 8; 1-3 resource charts, 0-1 hooks) on memory/Secret/ConfigMap storage, " +
 		"sometimes one rejected mutating cluster request, sometimes (1 in 7, with a history) one participant is a rollback or an uninstall (a mix); replayed under a gate schedule: corpus witnesses " +
 		"(incl. the flag family: one option at a time on the operation that must lose), enumerated interleavings of the base, flag, mix and pruning scenarios (quick: sampled; thorough: all two-operation " +
 		"interleavings, three operations with <= 2 preemptions) and uniformly drawn interleavings of generated scenarios; " +
@@ -346,7 +346,15 @@ func c9kinds(c conc.Case) string {
 		if op.Flags.KeepHistory {
 			s += "-keep"
 		}
-		if x := c.ExtOf(i); x.Force {
+		x := c.ExtOf(i)
+		if x.CRDs {
+			s += "+crds"
+		}
+		if x.CreateNamespace {
+			s += "+ns"
+		}
+		x.CRDs, x.CreateNamespace = false, false
+		if x.Force {
 			s += "+force"
 		} else if x.Any() {
 			s += "+opts"
@@ -364,6 +372,14 @@ func (*c09) Class(ci, oi any) string {
 	f := ""
 	if c9hasFault(c) {
 		f = "/fault"
+	}
+	if o, ok := oi.(conc.Obs); ok {
+		for i, oo := range o.Ops {
+			if i < len(c.Ops) && len(oo.Created) == 0 && oo.Outcome == "err:exists" && oo.PreCalls > 0 {
+				f += "/observed:crds-or-namespace-before-create"
+				break
+			}
+		}
 	}
 	if o, ok := oi.(conc.Obs); ok && c9isMix(c) && c9deployed(o) > 1 {
 		f += "/observed:two-deployed" // outside the property text (a rollback / uninstall takes part): an observation, see notes/C09.md
@@ -465,6 +481,15 @@ func (*c09) Oracle(ci, oi any) []hx.Violation {
 		if oo.MutCalls > 0 || len(oo.Muts) > 0 {
 			add("C09:loser-mutated-cluster", fmt.Sprintf("operation %d (%s) created no revision (%s) but issued %d mutating cluster calls: %v",
 				i, kind, oo.Outcome, oo.MutCalls, oo.Muts))
+		}
+		// an operation refused at its first check (the name is in use / another operation is in progress) has sent no
+		// mutating request AT ALL: not even the CRD pre-install step of the chart's crds/ or the creation of the
+		// release namespace, which an install otherwise performs before its revision record exists (the loser of
+		// the create race may therefore have sent them: counted by Class() as observed:crds-or-namespace-before-create)
+		// (an install --replace refused at its SECOND read, in replaceRelease, comes after the namespace creation)
+		if (oo.Outcome == "err:name-in-use" || (kind == "upgrade" && oo.Outcome == "err:pending")) && (oo.PreCalls > 0 || len(oo.PreMuts) > 0) {
+			add("C09:loser-mutated-cluster", fmt.Sprintf("operation %d (%s) was refused (%s) but had already sent %d create request(s) for CRDs / the namespace: %v",
+				i, kind, oo.Outcome, oo.PreCalls, oo.PreMuts))
 		}
 		if len(oo.Refused) > 0 && oo.Outcome != "err:exists" {
 			add("C09:exists-not-reported", fmt.Sprintf("operation %d: the create of revision %v was refused but it returned %q", i, oo.Refused, oo.Outcome))
